@@ -447,22 +447,23 @@ func (j *vfc15Judge) lastAppliedBefore(s int64) *vfc15Resp {
 	return out
 }
 
-// oobJustified decides whether ErrOutOfBrokers was legitimate for a sequential operation: no candidate the client
-// certainly still had would have answered. Returns a description of a reachable candidate, or "".
-func (j *vfc15Judge) oobReachable(op *vfc15OpRec) string {
+// oobReachable decides whether ErrOutOfBrokers was legitimate for a sequential operation: no candidate the client
+// certainly still had, and certainly asked, would have answered. Returns a description of such a candidate, or "".
+func (j *vfc15Judge) oobReachable(op *vfc15OpRec, o vfc15Own) string {
 	if op.Health == nil {
 		return ""
 	}
-	// seeds: all of them are tried within the call when a second attempt exists; with Retry.Max=0 only those not set
-	// aside by an earlier failed request are.
+	// A seed that failed in an earlier call may still be set aside (deadSeeds); it is asked again only after an attempt in
+	// which every candidate failed, i.e. certainly within this call only if the call consumed no response at all and a
+	// second attempt exists. A seed that never failed is asked in every attempt.
 	for _, addr := range j.c.Seeds {
 		if !op.Health[addr] {
 			continue
 		}
-		if j.c.RetryMax >= 1 || !j.failedBefore(addr, -1, op.S) {
+		if !j.failedBefore(addr, -1, op.S) || (j.c.RetryMax >= 1 && o.last == nil) {
 			return "seed " + addr
 		}
-		j.class("obs:oob-with-healthy-seed-set-aside(retry.max=0)")
+		j.class("obs:oob-with-healthy-seed-set-aside")
 	}
 	if l := j.lastAppliedBefore(op.S); l != nil {
 		for id, addr := range l.View.Brokers {
@@ -505,7 +506,7 @@ func (j *vfc15Judge) verdict(op *vfc15OpRec, o vfc15Own, res string) *vfcore.Fai
 			j.class("unjudged:oob-under-concurrency")
 			return nil
 		}
-		if who := j.oobReachable(op); who != "" {
+		if who := j.oobReachable(op, o); who != "" {
 			return j.failSpurious("oob-while-reachable", op, "ErrOutOfBrokers although %s would have answered", who)
 		}
 		return nil
